@@ -5,324 +5,29 @@ by the double loop `for idx in 0..size { for jdx in 0..idx { swap (idx, jdx) wit
 says that entry `(i, j)` of the result is amplitude `i` of the image of basis vector `j` under the model's buffer sweep
 `MultiOp.applyArr` - the reading `C01_matrix_column` gives to `MultiOp.matrix` on states.
 -/
-import Qvnt.Lemmas.GenOps
-
-set_option linter.unusedSectionVars false
-
-namespace Qvnt.Gen2
-open Qvnt Qvnt.Gen
-
-/-! ### in-place transposition of a square list of lists -/
-
-section transpose
-variable {α : Type}
-
-/-- entry `(a, b)`, with the defaults the translated indexing uses -/
-def ent (d : α) (m : List (List α)) (a b : Nat) : α := (m.getD a []).getD b d
-
-def Square (N : Nat) (m : List (List α)) : Prop := m.length = N ∧ ∀ r ∈ m, r.length = N
-
-theorem getD_of_lt (l : List α) (i : Nat) (d : α) (h : i < l.length) : l.getD i d = l[i] := by
-  simp [List.getD_eq_getElem?_getD, h]
-
-theorem getD_set_self' (l : List α) (i : Nat) (d v : α) (h : i < l.length) : (l.set i v).getD i d = v := by
-  simp [List.getD_eq_getElem?_getD, h]
-
-theorem getD_set_ne' (l : List α) (i j : Nat) (d v : α) (h : i ≠ j) : (l.set i v).getD j d = l.getD j d := by
-  simp [List.getD_eq_getElem?_getD, List.getElem?_set_ne h]
-
-theorem Square.row {N : Nat} {m : List (List α)} (h : Square N m) (i : Nat) (hi : i < N) :
-    (m.getD i []).length = N := by
-  have hi' : i < m.length := by rw [h.1]; exact hi
-  rw [getD_of_lt _ _ _ hi']
-  exact h.2 _ (List.getElem_mem hi')
-
-/-- writing one entry -/
-def setEnt (m : List (List α)) (i j : Nat) (v : α) : List (List α) := m.set i ((m.getD i []).set j v)
-
-theorem setEnt_square {N : Nat} {m : List (List α)} (h : Square N m) (i j : Nat) (v : α) :
-    Square N (setEnt m i j v) := by
-  refine ⟨by simp [setEnt, h.1], ?_⟩
-  intro r hr
-  unfold setEnt at hr
-  by_cases hi : i < N
-  · rcases List.mem_or_eq_of_mem_set hr with hr | hr
-    · exact h.2 r hr
-    · rw [hr, List.length_set]; exact h.row i hi
-  · have : m.length ≤ i := by rw [h.1]; omega
-    rw [List.set_eq_of_length_le this] at hr
-    exact h.2 r hr
-
-theorem ent_setEnt (d : α) {N : Nat} {m : List (List α)} (h : Square N m) (i j : Nat) (v : α)
-    (hi : i < N) (hj : j < N) (a b : Nat) :
-    ent d (setEnt m i j v) a b = if a = i ∧ b = j then v else ent d m a b := by
-  have hi' : i < m.length := by rw [h.1]; exact hi
-  have hrow := h.row i hi
-  unfold ent setEnt
-  by_cases ha : a = i
-  · subst ha
-    rw [getD_set_self' _ _ _ _ hi']
-    by_cases hb : b = j
-    · subst hb
-      rw [getD_set_self' _ _ _ _ (by rw [hrow]; exact hj)]; simp
-    · rw [getD_set_ne' _ _ _ _ _ (Ne.symm hb)]; simp [hb]
-  · rw [getD_set_ne' _ _ _ _ _ (Ne.symm ha)]; simp [ha]
-
-/-- one exchange of the entries `(idx, jdx)` and `(jdx, idx)`, as the translated loop body does it -/
-def swapStep (d : α) (m : List (List α)) (idx jdx : Nat) : List (List α) :=
-  let tmp := ent d m idx jdx
-  let m1 := setEnt m idx jdx (ent d m jdx idx)
-  setEnt m1 jdx idx tmp
-
-theorem swapStep_square (d : α) {N : Nat} {m : List (List α)} (h : Square N m) (idx jdx : Nat) :
-    Square N (swapStep d m idx jdx) := setEnt_square (setEnt_square h _ _ _) _ _ _
-
-theorem ent_swapStep (d : α) {N : Nat} {m : List (List α)} (h : Square N m) (idx jdx : Nat)
-    (hi : idx < N) (hj : jdx < N) (hne : idx ≠ jdx) (a b : Nat) :
-    ent d (swapStep d m idx jdx) a b =
-      if a = idx ∧ b = jdx then ent d m jdx idx
-      else if a = jdx ∧ b = idx then ent d m idx jdx else ent d m a b := by
-  unfold swapStep
-  simp only []
-  rw [ent_setEnt d (setEnt_square h _ _ _) jdx idx _ hj hi, ent_setEnt d h idx jdx _ hi hj]
-  by_cases h1 : a = jdx ∧ b = idx
-  · obtain ⟨rfl, rfl⟩ := h1
-    have : ¬ (a = b ∧ b = a) := fun hh => hne hh.1.symm
-    simp [this]
-  · by_cases h2 : a = idx ∧ b = jdx
-    · rw [if_neg h1, if_pos h2, if_pos h2]
-    · rw [if_neg h1, if_neg h2, if_neg h2, if_neg h1]
-
-/-- the inner loop: row `idx` against the columns `0 .. k-1` -/
-def innerLoop (d : α) (m : List (List α)) (idx k : Nat) : List (List α) :=
-  (List.range' 0 k).foldl (fun m jdx => swapStep d m idx jdx) m
-
-theorem innerLoop_spec (d : α) {N : Nat} {m : List (List α)} (h : Square N m) (idx : Nat) (hi : idx < N) :
-    ∀ k, k ≤ idx → Square N (innerLoop d m idx k) ∧ ∀ a b,
-      ent d (innerLoop d m idx k) a b =
-        if (a = idx ∧ b < k) ∨ (b = idx ∧ a < k) then ent d m b a else ent d m a b := by
-  intro k
-  induction k with
-  | zero => intro _; exact ⟨h, fun a b => by simp [innerLoop]⟩
-  | succ k ih =>
-    intro hk
-    obtain ⟨hsq, hent⟩ := ih (by omega)
-    have hstep : innerLoop d m idx (k + 1) = swapStep d (innerLoop d m idx k) idx k := by
-      unfold innerLoop
-      rw [List.range'_1_concat, List.foldl_append]; simp
-    rw [hstep]
-    refine ⟨swapStep_square d hsq idx k, ?_⟩
-    intro a b
-    rw [ent_swapStep d hsq idx k hi (by omega) (by omega), hent, hent, hent]
-    by_cases h1 : a = idx ∧ b = k
-    · rw [if_pos h1]
-      have e1 : ¬ ((k = idx ∧ idx < k) ∨ (idx = idx ∧ k < k)) := by omega
-      have e2 : (a = idx ∧ b < k + 1) ∨ (b = idx ∧ a < k + 1) := by omega
-      rw [if_neg e1, if_pos e2, h1.1, h1.2]
-    · rw [if_neg h1]
-      by_cases h2 : a = k ∧ b = idx
-      · rw [if_pos h2]
-        have e1 : ¬ ((idx = idx ∧ k < k) ∨ (k = idx ∧ idx < k)) := by omega
-        have e2 : (a = idx ∧ b < k + 1) ∨ (b = idx ∧ a < k + 1) := by omega
-        rw [if_neg e1, if_pos e2, h2.1, h2.2]
-      · rw [if_neg h2]
-        have : ((a = idx ∧ b < k + 1) ∨ (b = idx ∧ a < k + 1)) ↔ ((a = idx ∧ b < k) ∨ (b = idx ∧ a < k)) := by
-          constructor
-          · rintro (⟨ha, hb⟩ | ⟨hb, ha⟩)
-            · left; refine ⟨ha, ?_⟩
-              rcases Nat.lt_succ_iff_lt_or_eq.1 hb with hb | hb
-              · exact hb
-              · exact absurd ⟨ha, hb⟩ h1
-            · right; refine ⟨hb, ?_⟩
-              rcases Nat.lt_succ_iff_lt_or_eq.1 ha with ha | ha
-              · exact ha
-              · exact absurd ⟨ha, hb⟩ h2
-          · rintro (⟨ha, hb⟩ | ⟨hb, ha⟩)
-            · left; exact ⟨ha, by omega⟩
-            · right; exact ⟨hb, by omega⟩
-        by_cases hp : (a = idx ∧ b < k) ∨ (b = idx ∧ a < k)
-        · rw [if_pos hp, if_pos (this.2 hp)]
-        · rw [if_neg hp, if_neg (fun hh => hp (this.1 hh))]
-
-/-- the outer loop over the rows `0 .. K-1` -/
-def outerLoop (d : α) (m : List (List α)) (K : Nat) : List (List α) :=
-  (List.range' 0 K).foldl (fun m idx => innerLoop d m idx idx) m
-
-theorem outerLoop_spec (d : α) {N : Nat} {m : List (List α)} (h : Square N m) :
-    ∀ K, K ≤ N → Square N (outerLoop d m K) ∧ ∀ a b,
-      ent d (outerLoop d m K) a b = if a < K ∧ b < K then ent d m b a else ent d m a b := by
-  intro K
-  induction K with
-  | zero => intro _; exact ⟨h, fun a b => by simp [outerLoop]⟩
-  | succ K ih =>
-    intro hK
-    obtain ⟨hsq, hent⟩ := ih (by omega)
-    have hstep : outerLoop d m (K + 1) = innerLoop d (outerLoop d m K) K K := by
-      unfold outerLoop
-      rw [List.range'_1_concat, List.foldl_append]; simp
-    rw [hstep]
-    obtain ⟨hsq', hent'⟩ := innerLoop_spec d hsq K (by omega) K (Nat.le_refl K)
-    refine ⟨hsq', ?_⟩
-    intro a b
-    rw [hent', hent, hent]
-    by_cases hc : (a = K ∧ b < K) ∨ (b = K ∧ a < K)
-    · have e1 : ¬ (b < K ∧ a < K) := by omega
-      have e2 : a < K + 1 ∧ b < K + 1 := by omega
-      rw [if_pos hc, if_neg e1, if_pos e2]
-    · rw [if_neg hc]
-      by_cases hab : a < K ∧ b < K
-      · have : a < K + 1 ∧ b < K + 1 := by omega
-        rw [if_pos hab, if_pos this]
-      · rw [if_neg hab]
-        by_cases hd : a < K + 1 ∧ b < K + 1
-        · -- then a = b = K: the diagonal entry, untouched
-          have hk : a = K ∧ b = K := by omega
-          rw [if_pos hd, hk.1, hk.2]
-        · rw [if_neg hd]
-
-/-- a square list of lists is determined by its entries -/
-theorem square_ext (d : α) {N : Nat} {m m' : List (List α)} (h : Square N m) (h' : Square N m')
-    (he : ∀ a b, a < N → b < N → ent d m a b = ent d m' a b) : m = m' := by
-  apply List.ext_getElem (by rw [h.1, h'.1])
-  intro a ha ha'
-  have haN : a < N := by rw [← h.1]; exact ha
-  have hr := h.2 _ (List.getElem_mem ha)
-  have hr' := h'.2 _ (List.getElem_mem ha')
-  apply List.ext_getElem (by rw [hr, hr'])
-  intro b hb hb'
-  have hbN : b < N := by rw [← hr]; exact hb
-  have := he a b haN hbN
-  unfold ent at this
-  rw [getD_of_lt _ _ _ ha, getD_of_lt _ _ _ ha', getD_of_lt _ _ _ hb, getD_of_lt _ _ _ hb'] at this
-  exact this
-
-end transpose
-
-/-! ### `Applicable::matrix` for a queue -/
-
-section matrix
-variable {R : Type} [CommRing R] [Consts R] [Div R] [LE R] [DecidableLE R] [LT R] [DecidableLT R] [HasSqrt R] [RegConsts R]
-
-/-- basis vector `j` in a buffer of `N` amplitudes -/
-def basisArr (N j : Nat) : Array (Cx R) := (Array.replicate N (0 : Cx R)).setIfInBounds j 1
-
-/-- entry `(i, j)` of the reported matrix on buffers: amplitude `i` of the image of basis vector `j` -/
-def matrixArr (o : MultiOp R) (N i j : Nat) : Cx R := bufFn (MultiOp.applyArr o (basisArr N j)) i
-
-/-- the rows the first loop builds: row `idx` is the image of basis vector `idx` -/
-def matrixRows (o : MultiOp R) (N : Nat) : List (List (Cx R)) :=
-  (List.range' 0 N).map (fun idx => (MultiOp.applyArr o (basisArr N idx)).toList)
-
-theorem matrixRows_square (o : MultiOp R) (N : Nat) : Square N (matrixRows o N) := by
-  refine ⟨by simp [matrixRows], ?_⟩
-  intro r hr
-  simp only [matrixRows, List.mem_map] at hr
-  obtain ⟨idx, _, rfl⟩ := hr
-  simp [MultiOp.applyArr_size, basisArr]
-
-theorem ent_matrixRows (o : MultiOp R) (N a b : Nat) (ha : a < N) :
-    ent (0 : Cx R) (matrixRows o N) a b = matrixArr o N b a := by
-  unfold ent matrixRows matrixArr bufFn
-  have hlen : a < ((List.range' 0 N).map (fun idx => (MultiOp.applyArr o (basisArr N idx)).toList)).length := by
-    simp; exact ha
-  rw [getD_of_lt _ _ _ hlen]
-  simp only [List.getElem_map, List.getElem_range', Nat.zero_add, Nat.one_mul]
-  simp [List.getD_eq_getElem?_getD, Array.getD_eq_getD_getElem?]
-
-/-- **`Applicable::matrix` of a queue**: for `size < 64` and control masks that are machine words, the translated
-function returns the `2^size × 2^size` table whose entry `(i, j)` is amplitude `i` of the image of basis vector `j`
-under the model's buffer sweep. -/
-theorem multi_matrix_eq (o : MultiOp R) (hc : ∀ g ∈ o, g.ctrl < 2 ^ 64) (size : Nat) (hs : size < 64) :
-    multi_matrix o size =
-      List.ofFn (n := 2 ^ size) (fun i => List.ofFn (n := 2 ^ size) (fun j => matrixArr o (2 ^ size) i.val j.val)) := by
-  have hN : shlW 64 1 size = 2 ^ size := shl_one size hs
-  unfold multi_matrix
-  simp only [hN, Rs.range, Nat.sub_zero]
-  -- first loop: the rows
-  have hrows : List.foldl (fun (st1 : List (List (Cx R))) (a2 : Nat) =>
-        st1 ++ [multi_apply o (List.set (Rs.resize [] (2 ^ size) ({ re := 0, im := 0 } : Cx R)) a2 ({ re := 1, im := 0 } : Cx R))
-          (Rs.resize ([] : List (Cx R)) (List.set (Rs.resize [] (2 ^ size) ({ re := 0, im := 0 } : Cx R)) a2 ({ re := 1, im := 0 } : Cx R)).length (0 : Cx R))])
-        [] (List.range' 0 (2 ^ size)) = matrixRows o (2 ^ size) := by
-    have key : ∀ (l : List Nat) (acc : List (List (Cx R))),
-        List.foldl (fun (st1 : List (List (Cx R))) (a2 : Nat) =>
-          st1 ++ [multi_apply o (List.set (Rs.resize [] (2 ^ size) ({ re := 0, im := 0 } : Cx R)) a2 ({ re := 1, im := 0 } : Cx R))
-            (Rs.resize ([] : List (Cx R)) (List.set (Rs.resize [] (2 ^ size) ({ re := 0, im := 0 } : Cx R)) a2 ({ re := 1, im := 0 } : Cx R)).length (0 : Cx R))])
-          acc l = acc ++ l.map (fun idx => (MultiOp.applyArr o (basisArr (2 ^ size) idx)).toList) := by
-      intro l
-      induction l with
-      | nil => intro acc; simp
-      | cons x xs ih =>
-        intro acc
-        rw [List.foldl_cons, ih]
-        have hb : List.set (Rs.resize [] (2 ^ size) ({ re := 0, im := 0 } : Cx R)) x ({ re := 1, im := 0 } : Cx R) =
-            (basisArr (R := R) (2 ^ size) x).toList := by
-          simp [basisArr, Rs.resize, Array.toList_setIfInBounds]
-          rfl
-        rw [hb, multi_apply_eq o hc (basisArr (2 ^ size) x) _ (by simp [Rs.resize, basisArr])]
-        simp
-    rw [key]; simp [matrixRows]
-  -- second loop: the transposition
-  have hloop : ∀ (m : List (List (Cx R))),
-      List.foldl (fun (st5 : List (List (Cx R))) (a6 : Nat) =>
-        List.foldl (fun (st7 : List (List (Cx R))) (a8 : Nat) =>
-          List.set (List.set st7 a6 (List.set (st7.getD a6 ([] : List (Cx R))) a8 ((st7.getD a8 ([] : List (Cx R))).getD a6 (0 : Cx R))))
-            a8 (List.set ((List.set st7 a6 (List.set (st7.getD a6 ([] : List (Cx R))) a8 ((st7.getD a8 ([] : List (Cx R))).getD a6 (0 : Cx R)))).getD a8 ([] : List (Cx R))) a6
-              ((st7.getD a6 ([] : List (Cx R))).getD a8 (0 : Cx R))))
-          st5 (List.range' 0 a6)) m (List.range' 0 (2 ^ size)) = outerLoop (0 : Cx R) m (2 ^ size) := by
-    intro m; rfl
-  rw [hrows, hloop]
-  obtain ⟨hsq, hent⟩ := outerLoop_spec (0 : Cx R) (matrixRows_square o (2 ^ size)) (2 ^ size) (Nat.le_refl _)
-  apply square_ext (0 : Cx R) hsq
-  · refine ⟨by simp, ?_⟩
-    intro r hr
-    simp only [List.mem_ofFn] at hr
-    obtain ⟨i, rfl⟩ := hr
-    simp
-  · intro a b ha hb
-    rw [hent, if_pos ⟨ha, hb⟩, ent_matrixRows o _ b a hb]
-    unfold ent
-    simp [List.getD_eq_getElem?_getD, ha, hb]
-
-/-- buffer sweep = functional sweep, as long as every element of the queue leaves the amplitudes beyond the buffer's
-`N` entries at zero (it does when it acts on qubits the buffer has) -/
-theorem bufFn_applyArr_fn (N : Nat) (o : MultiOp R) (a : Array (Cx R)) (hsz : a.size = N)
-    (hloc : ∀ g ∈ o, ∀ ψ : State R, (∀ i, N ≤ i → ψ i = 0) → ∀ i, N ≤ i → g.apply ψ i = 0) :
-    bufFn (o.applyArr a) = o.apply (bufFn a) := by
-  have hz0 : ∀ (b : Array (Cx R)), b.size = N → ∀ i, N ≤ i → bufFn b i = 0 := by
-    intro b hb i hi
-    simp [bufFn, Array.getD_eq_getD_getElem?, Array.getElem?_eq_none (by omega : b.size ≤ i)]
-  induction o generalizing a with
-  | nil => rfl
-  | cons g o ih =>
-    have hg : bufFn (g.applyArr a) = g.apply (bufFn a) := by
-      funext i
-      by_cases hi : i < a.size
-      · exact SingleOp.bufFn_applyArr g a i hi
-      · rw [SingleOp.bufFn_applyArr_of_le g a i (Nat.le_of_not_lt hi)]
-        exact (hloc g (List.mem_cons_self ..) _ (hz0 a hsz) i (by omega)).symm
-    rw [MultiOp.applyArr_cons, MultiOp.apply_cons,
-      ih (g.applyArr a) (by rw [SingleOp.applyArr_size]; exact hsz)
-        (fun g' hg' => hloc g' (List.mem_cons_of_mem _ hg')), hg]
-
-theorem bufFn_basisArr (N j : Nat) (hj : j < N) :
-    bufFn (basisArr (R := R) N j) = fun k => if k = j then 1 else 0 := by
-  funext k
-  unfold bufFn basisArr
-  by_cases hk : k = j
-  · subst hk; simp [Array.getD_eq_getD_getElem?, Array.getElem?_setIfInBounds_self_of_lt, hj]
-  · by_cases hkN : k < N
-    · simp [Array.getD_eq_getD_getElem?, hk, hkN, Array.getElem_setIfInBounds, Ne.symm hk]
-    · simp [Array.getD_eq_getD_getElem?, hk, Array.getElem?_eq_none (by simp; omega : ((Array.replicate N (0 : Cx R)).setIfInBounds j 1).size ≤ k)]
-
-/-- the table the translated `matrix` returns is the model's `MultiOp.matrix` (`Applicable::matrix` on states, the object
-of `C01_matrix_column` / `C01_matrix_linear` / `C03_adjoint_matrix`), for a queue whose elements act inside the `size`
-qubits -/
-theorem matrixArr_eq_matrix (o : MultiOp R) (size : Nat)
-    (hloc : ∀ g ∈ o, ∀ ψ : State R, (∀ i, 2 ^ size ≤ i → ψ i = 0) → ∀ i, 2 ^ size ≤ i → g.apply ψ i = 0)
-    (i j : Nat) (hj : j < 2 ^ size) : matrixArr o (2 ^ size) i j = MultiOp.matrix o i j := by
-  unfold matrixArr MultiOp.matrix
-  rw [bufFn_applyArr_fn (2 ^ size) o _ (by simp [basisArr]) hloc, bufFn_basisArr _ _ hj]
-
-end matrix
-
-end Qvnt.Gen2
+import Qvnt.Lemmas.GenMatrix.ent
+import Qvnt.Lemmas.GenMatrix.Square
+import Qvnt.Lemmas.GenMatrix.getD_of_lt
+import Qvnt.Lemmas.GenMatrix.getD_set_self_p
+import Qvnt.Lemmas.GenMatrix.getD_set_ne_p
+import Qvnt.Lemmas.GenMatrix.Square_row
+import Qvnt.Lemmas.GenMatrix.setEnt
+import Qvnt.Lemmas.GenMatrix.setEnt_square
+import Qvnt.Lemmas.GenMatrix.ent_setEnt
+import Qvnt.Lemmas.GenMatrix.swapStep
+import Qvnt.Lemmas.GenMatrix.swapStep_square
+import Qvnt.Lemmas.GenMatrix.ent_swapStep
+import Qvnt.Lemmas.GenMatrix.innerLoop
+import Qvnt.Lemmas.GenMatrix.innerLoop_spec
+import Qvnt.Lemmas.GenMatrix.outerLoop
+import Qvnt.Lemmas.GenMatrix.outerLoop_spec
+import Qvnt.Lemmas.GenMatrix.square_ext
+import Qvnt.Lemmas.GenMatrix.basisArr
+import Qvnt.Lemmas.GenMatrix.matrixArr
+import Qvnt.Lemmas.GenMatrix.matrixRows
+import Qvnt.Lemmas.GenMatrix.matrixRows_square
+import Qvnt.Lemmas.GenMatrix.ent_matrixRows
+import Qvnt.Lemmas.GenMatrix.multi_matrix_eq
+import Qvnt.Lemmas.GenMatrix.bufFn_applyArr_fn
+import Qvnt.Lemmas.GenMatrix.bufFn_basisArr
+import Qvnt.Lemmas.GenMatrix.matrixArr_eq_matrix
